@@ -2,7 +2,7 @@
 
 Enumeration: target in {absent, existing TDF, existing non-TDF, existing empty file} x source in
 every file state reachable by the container driver K within a small depth x op in {Tdf.new, copy}
-x path given as str / pathlib.Path; then every one-operation mutation of the copy (original must
+x path given as str / pathlib.Path x source object closed / inside a read context / inside a write context; then every one-operation mutation of the copy (original must
 stay) and of the original (copy must stay).  Opening: absent path, empty file, non-TDF file,
 truncated signature - refused, never data."""
 import os
@@ -100,7 +100,9 @@ def check_new(directory, tkind, as_path, acc):
     return "refused"
 
 
-def check_copy(cfg, directory, base, model, tkind, as_path, acc):
+def check_copy(cfg, directory, base, model, tkind, as_path, acc, src_mode="closed"):
+    """src_mode: copy() called on a Tdf that is closed / inside a read context / inside a write
+    context after reading a block (handle positioned somewhere in the file)."""
     n = specs.lib()
     src = os.path.join(directory, "source.tdf")
     target = os.path.join(directory, "target.tdf")
@@ -110,7 +112,18 @@ def check_copy(cfg, directory, base, model, tkind, as_path, acc):
     s = n.tdf.Tdf(src)
     arg = pathlib.Path(target) if as_path else target
     try:
-        c = s.copy(arg)
+        if src_mode == "closed":
+            c = s.copy(arg)
+        else:
+            if src_mode == "write":
+                s.allow_write()
+            with s:
+                if len(s):
+                    try:
+                        s.get_block(0)
+                    except Exception:  # noqa: BLE001 - opaque block
+                        pass
+                c = s.copy(arg)
         err = None
     except Exception as e:  # noqa: BLE001
         c, err = None, e
@@ -259,12 +272,17 @@ def _shard(cfg_w):
                 wit = {"config": cfg.to_witness(), "base": base.hex(), "target": tkind, "as_path": as_path,
                        "base_model": specs.dump([(r.type, r.format, r.payload, r.comment, r.ctime, r.mtime) for r in model.live.values()]),
                        "history": [kdriver.op_str(o) for o in hist]}
-                try:
-                    out = check_copy(cfg, directory, base, model, tkind, as_path, acc_)
-                    acc_.outcomes[f"copy:{tkind}:{out}"] += 1
-                    acc_.n["traces"] += 1
-                except core.Violation as v:
-                    acc_.violation(v.clause, v.sig, wit, f"source after {[kdriver.op_str(o) for o in hist]}: {v.detail}")
+                for src_mode in ("closed", "read", "write"):
+                    if src_mode != "closed" and as_path:
+                        continue
+                    wit2 = dict(wit, src_mode=src_mode)
+                    try:
+                        out = check_copy(cfg, directory, base, model, tkind, as_path, acc_, src_mode)
+                        acc_.outcomes[f"copy:{tkind}:{src_mode}:{out}"] += 1
+                        acc_.n["traces"] += 1
+                    except core.Violation as v:
+                        acc_.violation(v.clause, v.sig + (":" + src_mode if src_mode != "closed" else ""), wit2,
+                                       f"source ({src_mode}) after {[kdriver.op_str(o) for o in hist]}: {v.detail}")
 
     kdriver.explore(cfg, observe, acc)
     return acc
@@ -300,7 +318,7 @@ def replay(w):
             return None
         cfg = kdriver.Config.from_witness(w["config"])
         model = kdriver.Model(14 if cfg.init == "new" else cfg.n, [kdriver.Rec(*r) for r in specs.load(w["base_model"])])
-        check_copy(cfg, directory, bytes.fromhex(w["base"]), model, w["target"], w["as_path"], acc)
+        check_copy(cfg, directory, bytes.fromhex(w["base"]), model, w["target"], w["as_path"], acc, w.get("src_mode", "closed"))
     except core.Violation as v:
         return v
     return None
